@@ -116,9 +116,13 @@ func Open(filename string, opts ...Option) (*Whisper, error) {
 
 	w.fileBuf = filebuffer.New(w.file, st.Size(), w.pageSize)
 
-	if err := w.readHeader(); err != nil {
+	if err := w.readHeader(st.Size()); err != nil {
 		w.file.Close()
 		return nil, fmt.Errorf("readHeader: %s: %s", filename, err)
+	}
+	if st.Size() < w.header.ExpectedFileSize() {
+		w.file.Close()
+		return nil, fmt.Errorf("open: %s: file is shorter than its header requires", filename)
 	}
 	return w, nil
 }
@@ -421,7 +425,7 @@ func (w *Whisper) putHeader() error {
 	return nil
 }
 
-func (w *Whisper) readHeader() error {
+func (w *Whisper) readHeader(fileSize int64) error {
 	buf := make([]byte, w.pageSize)
 	if _, err := w.fileBuf.ReadAt(buf[:metaSize], 0); err != nil {
 		return err
@@ -435,6 +439,12 @@ func (w *Whisper) readHeader() error {
 		}
 
 		wantSize := werr.WantedBufSize
+		if wantSize <= metaSize {
+			return err
+		}
+		if int64(wantSize) > fileSize {
+			return errors.New("file is shorter than its header")
+		}
 		if wantSize > len(buf) {
 			buf = make([]byte, wantSize)
 		}
